@@ -94,10 +94,10 @@ func (c *pconn) SetWriteDeadline(t time.Time) error { return nil }
 
 type pws struct{ *pconn }
 
-func (w pws) Subprotocol() string            { return w.proto }
+func (w pws) Subprotocol() string           { return w.proto }
 func (w pws) TextTransport() websocket.Conn { return w }
-func (w pws) Path() string                   { return streamPath }
-func (w pws) Username() string               { return "" }
+func (w pws) Path() string                  { return streamPath }
+func (w pws) Username() string              { return "" }
 
 type viewer struct {
 	kind   int64
@@ -231,10 +231,12 @@ func (v *viewer) collect() {
 }
 
 // case = (0 packets viewers (k0 parked mode window ctrl))
-//   viewers = ((kind (m0 m1 m2 m3) delivered) ..)  — everybody attaches before the first packet
-//   k0 packets are delivered normally, then viewer `parked` is parked in its data write (mode 1: before
-//   anything of the message is taken, 2: also between its halves) while `window` packets are published and
-//   the others deliver them; ctrl >= 0: that viewer gets a keep-alive request/response inside the window
+//
+//	viewers = ((kind (m0 m1 m2 m3) delivered) ..)  — everybody attaches before the first packet
+//	k0 packets are delivered normally, then viewer `parked` is parked in its data write (mode 1: before
+//	anything of the message is taken, 2: also between its halves) while `window` packets are published and
+//	the others deliver them; ctrl >= 0: that viewer gets a keep-alive request/response inside the window
+//
 // observation = ((received () ended) ..) notes
 func RunPool(c Val) Val {
 	poolOnce.Do(func() {
@@ -312,6 +314,13 @@ func RunPool(c Val) Val {
 	publish(k0)
 	a := viewers[parked]
 	thread := a.data.name
+	if a.kind == 0 {
+		// RTSP/TCP: Packet.Write hands the 4-byte prefix and the payload to buffered.Conn one after the other;
+		// with an empty queue and a flush token the prefix goes straight to the socket (the caller's slice is
+		// what the socket reads).  A keep-alive empties the queue, 40 ms bring one token back (30 per second).
+		keepAlive(a)
+		time.Sleep(40 * time.Millisecond)
+	}
 	atomic.StoreInt32(&a.data.armed, mode)
 	publish(window) // the first one parks the viewer inside its write; the others pile up in its queue
 	if st := ctl.Status(thread); !strings.HasPrefix(st, "sock.write") {
@@ -346,4 +355,117 @@ func RunPool(c Val) Val {
 		out[i] = L(L(ms...), L(), Bo(false))
 	}
 	return L(L(out...), L(), S(note))
+}
+
+// RunTwoTCP (C13, stream "two-sessions"): two or three RTSP/TCP viewers of one stream, each on its own
+// scripted connection.  Viewer 0 is parked inside the socket write of a frame prefix (its queue was
+// emptied and a flush token is available, so buffered.Conn hands the caller's slice straight to the
+// socket) while the other viewers deliver frames with other channel numbers and lengths on THEIR
+// connections; then it continues.  Per connection the bytes must be complete frames and responses
+// of that connection.
+// case = (packets ((chmap) ..) (k0 window mode));  observation = (((sink (response ..)) ..) note)
+func RunTwoTCP(c Val) Val {
+	poolOnce.Do(func() {
+		runtime.GOMAXPROCS(1)
+		xlog.ReplaceGlobal(xlog.New(xlog.NewNopCore()))
+		rtspOnRaw = rtsp.CreateAcceptHandler()
+		wspOn = wsp.CreateAcceptHandler()
+	})
+	pkts, vs, script := c.At(0).List(), c.At(1).List(), c.At(2)
+	k0, window, mode := int(script.At(0).Int()), int(script.At(1).Int()), int32(script.At(2).Int())
+	media.UnregistAll()
+	ctl := sched.New()
+	defer ctl.Finish()
+	ctl.Role = func(point string, id uint32) string {
+		if i := strings.IndexByte(point, ':'); i >= 0 && strings.HasPrefix(point, "sock.write") {
+			return point[i+1:]
+		}
+		return ""
+	}
+	ctl.Allow = func(thread, point string) bool { return strings.HasPrefix(point, "sock.write") }
+	stream := media.NewStream(streamPath, sdpText)
+	media.Regist(stream)
+	viewers := make([]*viewer, len(vs))
+	defer func() {
+		for _, v := range viewers {
+			if v != nil && v.ctrl != nil {
+				v.ctrl.Close()
+			}
+		}
+		media.UnregistAll()
+	}()
+	ctl.Settle()
+	const tpl = "770077"
+	templates := make([]string, len(vs))
+	resps := make([][]Val, len(vs))
+	for i, vv := range vs {
+		v := &viewer{kind: 0}
+		for k := 0; k < 4; k++ {
+			v.chmap[k] = vv.At(k).Int()
+		}
+		viewers[i] = v
+		if err := v.attach(ctl, i); err != nil {
+			return L(S("!setup"), S(err.Error()))
+		}
+		// what this connection's server answers to a keep-alive while nothing else writes
+		templates[i] = v.exchange(ctl, v.ctrl, fmt.Sprintf("OPTIONS rtsp://127.0.0.1:554%s RTSP/1.0\r\nCSeq: %s\r\n\r\n", streamPath, tpl))
+		if !strings.Contains(templates[i], "CSeq: "+tpl+"\r\n") {
+			return L(S("!setup"), S("no keep-alive template"))
+		}
+		v.cseq = 1000 * (i + 1)
+	}
+	next := 0
+	publish := func(n int) {
+		for ; n > 0 && next < len(pkts); n-- {
+			p := pkts[next]
+			next++
+			pk := &rtp.Packet{Channel: byte(p.At(0).Int()), Data: p.At(1).Bytes()}
+			if pk.Channel == rtp.ChannelVideo || pk.Channel == rtp.ChannelAudio {
+				if err := pk.Header.Unmarshal(pk.Data); err != nil {
+					panic(err)
+				}
+			}
+			stream.WriteRtpPacket(pk)
+			ctl.Settle()
+		}
+	}
+	keepAlive := func(i int) {
+		v := viewers[i]
+		v.cseq++
+		resps[i] = append(resps[i], S(strings.Replace(templates[i], "CSeq: "+tpl+"\r\n", fmt.Sprintf("CSeq: %d\r\n", v.cseq), 1)))
+		v.ctrl.in <- []byte(fmt.Sprintf("OPTIONS rtsp://127.0.0.1:554%s RTSP/1.0\r\nCSeq: %d\r\n\r\n", streamPath, v.cseq))
+		ctl.Settle()
+	}
+	note := ""
+	publish(k0)
+	a := viewers[0]
+	keepAlive(0)
+	time.Sleep(40 * time.Millisecond) // one flush token comes back
+	atomic.StoreInt32(&a.data.armed, mode)
+	publish(window)
+	if st := ctl.Status(a.data.name); !strings.HasPrefix(st, "sock.write") {
+		note = "viewer not parked: " + st
+	}
+	for guard := 0; guard < 400 && strings.HasPrefix(ctl.Status(a.data.name), "sock.write"); guard++ {
+		if mode == 2 && ctl.Status(a.data.name) == "sock.write2:"+a.data.name && guard%3 == 0 {
+			publish(1)
+		}
+		ctl.Step(a.data.name)
+	}
+	atomic.StoreInt32(&a.data.armed, 0)
+	ctl.Finish()
+	publish(len(pkts))
+	for i := range viewers {
+		keepAlive(i)
+	}
+	ctl.Settle()
+	out := make([]Val, len(viewers))
+	for i, v := range viewers {
+		var sink []byte
+		for _, w := range v.ctrl.take() {
+			sink = append(sink, w...)
+		}
+		out[i] = L(B(sink), L(resps[i]...))
+	}
+	return L(L(out...), S(note))
 }
